@@ -141,6 +141,8 @@ Proof.
   - destruct (observe_spec _ _ _ _ I A) as (_ & _ & Ev). eapply cleanup_events_ok; eauto. reflexivity.
   - destruct (bridge_call_spec _ _ _ _ _ _ _ _ _ A) as (t & R). decompose [and] R. subst evs.
     intros e [<-|[]]; simpl; auto.
+  - destruct (bridge_call_p_spec _ _ _ _ _ _ _ _ _ _ A) as (t & l0 & R). decompose [and] R. subst evs.
+    intros e [<-|[]]; simpl; auto.
   - destruct (observe_result_spec _ _ _ _ _ _ I A) as (_ & _ & _ & Ev). eapply cleanup_events_ok; eauto. reflexivity.
   - destruct (exec_result_spec _ _ _ _ A) as (n & ok & c & _ & _ & _ & _ & _ & _ & _ & _ & _ & _ & Eo & Ev). destruct ok.
     + destruct Ev as [_ ->]. intros e' [<-|[]]; simpl; auto.
@@ -167,6 +169,7 @@ Proof.
   - right. destruct (observe_spec _ _ _ _ I A) as (Hh & S & _). destruct (shrink_obs _ _ _ S) as (_ & _ & _ & _ & _ & _ & _ & _ & E1 & E2 & _).
     exists h. repeat split; auto.
   - left. destruct (bridge_call_spec _ _ _ _ _ _ _ _ _ A) as (t & R). decompose [and] R. auto.
+  - left. destruct (bridge_call_p_spec _ _ _ _ _ _ _ _ _ _ A) as (t & l0 & R). decompose [and] R. auto.
   - right. destruct (observe_result_spec _ _ _ _ _ _ I A) as (Hh & _ & S & _). destruct S; simpl in *.
     exists h. repeat split; auto.
   - left. destruct (exec_result_spec _ _ _ _ A) as (n & ok & c & _ & _ & _ & _ & _ & _ & _ & _ & _ & _ & Eo & Ev). auto.
@@ -195,6 +198,15 @@ Proof.
   destruct build_rejects_zero as [_ B]. rewrite B in A. discriminate.
 Qed.
 
+Theorem no_precompile_call_before_observation : forall s sender refund value tokens to data memo,
+  obs_ext s = 0 -> forall s' evs, exec s (BridgeCallP sender refund value tokens to data memo) <> ROk (s', evs).
+Proof.
+  intros s sender refund value tokens to data memo Z0 s' evs A. simpl in A.
+  unfold do_bridge_call_p in A. repeat (des A). mon. unfold cal_timeout in H1. rewrite Z0 in H1.
+  destruct cal_zero as [G R]. rewrite G in H1. inv H1. rewrite R in A.
+  destruct build_rejects_zero as [_ B]. rewrite B in A. discriminate.
+Qed.
+
 Theorem nothing_queued_before_observation : forall ops p ts l h0,
   let s := run (init p ts l h0) ops in obs_ext s = 0 -> batches s = [] /\ calls s = [].
 Proof.
@@ -212,9 +224,10 @@ Proof.
         * rewrite Hb in Hin; auto.
         * rewrite Eo in A. eapply no_batch_before_observation; eauto.
       + destruct (calls (step_state s o)) as [|c cs] eqn:Ec; auto. exfalso.
-        destruct (CS c (or_introl eq_refl)) as [Hin|(_ & _ & _ & _ & Eo)].
+        destruct (CS c (or_introl eq_refl)) as [Hin|(_ & _ & _ & _ & [Eo|(vv & tt & Eo & _)])].
         * rewrite Hc in Hin; auto.
         * rewrite Eo in A. eapply no_call_before_observation; eauto.
+        * rewrite Eo in A. eapply no_precompile_call_before_observation; eauto.
     - destruct (height_from_claim_only s o I) as [E|(h & _ & Hh & E & _)]; lia. }
   intros s. apply G; simpl; auto; [apply init_inv | lia].
 Qed.
